@@ -342,6 +342,28 @@ theorem lex_error_unique (cfg : Cfg) (re : Re) (lines : List (List Char)) (i c i
     (hn' : re.norm i' c' = none) : i = i' ∧ c = c' :=
   unmatched_unique h1 hl hc hn h2 hl' hc' hn'
 
+/-- A character no token pattern matches raises the lexical error, naming its line: if the scan reaches
+(outside a span) a character at which no pattern matches, `tokenize` *is* `LexicalError(line i+1, column c)` —
+it neither succeeds nor stops elsewhere (patterns never match the empty string: `ReAdv`). -/
+theorem unmatched_char_raises (cfg : Cfg) (re : Re) (hadv : ReAdv re) (lines : List (List Char)) (i c : Nat)
+    (line : List Char) (hr : Reach cfg re lines i c none) (hl : lines[i]? = some line)
+    (hc : c < line.length) (hn : re.norm i c = none) :
+    tokenize B cfg re lines = .error (.lexical ⟨1 + i, c⟩) := by
+  rw [bases_std]
+  exact tokenize_unmatched hadv hr hl hc hn
+
+/-- … also through `parse`, and regardless of the grammar: `parse` tokenizes the whole text before the stack
+machine starts, so for every parser `P`, every fuel and every name table the outcome of `parseText` on a text
+with an unmatched character is that `LexicalError` — never a `ParsingError` for a syntax error that stands in
+front of the character, never a tree. -/
+theorem parse_lexical_first (cfg : Cfg) (re : Re) (hadv : ReAdv re) (lines : List (List Char)) (i c : Nat)
+    (line : List Char) (hr : Reach cfg re lines i c none) (hl : lines[i]? = some line)
+    (hc : c < line.length) (hn : re.norm i c = none)
+    (names : List (List Char)) (P : LL.Parser) (fuel : Nat) :
+    parseText B names cfg re P lines fuel = .lex ⟨1 + i, c⟩ := by
+  unfold parseText
+  rw [unmatched_char_raises cfg re hadv lines i c line hr hl hc hn]
+
 /-- The model is total on the domain: when no pattern matches the empty string (`ReAdv`), `tokenize`
 returns a token list or a `LexicalError`, never `outOfFuel` (the real code's endless loop). -/
 theorem no_out_of_fuel (cfg : Cfg) (re : Re) (hadv : ReAdv re) (lines : List (List Char)) :
@@ -505,6 +527,21 @@ example : tokenize B ⟨[], [], [], 0⟩
     (reOfTable [] [⟨[some ⟨1, 1, 0, 1⟩, some ⟨2, 2, 1, 2⟩, none], []⟩]) ["x x".toList] =
     .error (.lexical ⟨1, 2⟩) := by
   decide +kernel
+/-- `unmatched_char_raises` / `parse_lexical_first`: in `x ?` (every `x` and blank is a token, `?` matches
+nothing) the `?` at column 2 is reached by the scan; whatever the grammar, `parse` raises the LexicalError -/
+def exAdv : Re := ⟨fun _ c => if c = 2 then none else some ⟨c + 1, 1, c, c + 1⟩, fun _ _ _ => none⟩
+example (names : List (List Char)) (P : LL.Parser) (fuel : Nat) :
+    parseText B names ⟨[], [], [], 0⟩ exAdv P ["x ?".toList] fuel = .lex ⟨1, 2⟩ := by
+  have hadv : ReAdv exAdv := by
+    constructor
+    · intro i c m h; simp only [exAdv] at h; split at h <;> cases h; simp
+    · intro k i c m h; cases h
+  have r0 : Reach ⟨[], [], [], 0⟩ exAdv ["x ?".toList] 0 0 none := .start
+  have r1 := Reach.token (m := ⟨1, 1, 0, 1⟩) r0 (line := "x ?".toList) (by simp) (by decide) (by simp [exAdv])
+    (by simp) (by simp)
+  have r2 := Reach.token (m := ⟨2, 1, 1, 2⟩) r1 (line := "x ?".toList) (by simp) (by decide) (by simp [exAdv])
+    (by simp) (by simp)
+  exact parse_lexical_first _ _ hadv _ 0 2 "x ?".toList r2 (by simp) (by decide) (by simp [exAdv]) names P fuel
 example : ReAdv ⟨fun _ _ => none, fun _ _ _ => none⟩ := ⟨by simp, by simp⟩
 /-- a lexical error: `?` on line 2, column 3 (0-based) -/
 example : tokenize B ⟨[], [], [], 0⟩
